@@ -179,6 +179,11 @@ func (ms *Modules) add(n Node) error {
 		return fmt.Errorf("duplicate %s %s at %s and %s", kind, fullName, Source(o), Source(n))
 	}
 	m[fullName] = mod
+	// A cached namespace lookup may no longer be right: the new module may
+	// have the namespace of one that is already cached.
+	ms.nsMu.Lock()
+	ms.byNS = map[string]*Module{}
+	ms.nsMu.Unlock()
 	if verifEnabled {
 		verifEmit("modules.add", "kind", kind, "full", fullName, "at", Source(n))
 	}
